@@ -97,6 +97,7 @@ type symPath struct {
 }
 
 type symScanResult struct {
+	nilFlag   bool              // the output's being non-nil plays the copied flag
 	lineSteps int               // iteration paths through the line-feed branch with a recognisable elision test
 	init      map[string]string // role -> initial value of the loop-carried variable
 	decided   bool
@@ -153,6 +154,7 @@ func (s *symState) clone() *symState {
 }
 
 type symExec struct {
+	nilFlag bool
 	c       *Ctx
 	mf      *markerFacts
 	header  *ssa.BasicBlock
@@ -289,6 +291,10 @@ func (c *Ctx) symScan() *symScanResult {
 	}
 	res.init = map[string]string{}
 	ex := &symExec{c: c, mf: mf, header: header, loop: loop, roles: roles, input: input, res: res, budget: 6000, root: root}
+	// no copied flag: "something was copied" is then `output != nil` (the output
+	// starts nil and the input is returned when it still is)
+	ex.nilFlag = seen["COPIED"] == 0
+	res.nilFlag = ex.nilFlag
 	res.markers["START"] = len(string(mf.start))
 	res.markers["END"] = len(string(mf.end))
 	// from the entry of the routine; the scan loop is entered on the way
@@ -888,6 +894,41 @@ func (ex *symExec) binop(f *symFrame, x *ssa.BinOp) interface{} {
 				}
 			}
 		}
+		if ex.nilFlag && (x.Op == token.EQL || x.Op == token.NEQ) {
+			isNilConst := func(v ssa.Value) bool {
+				k, ok := v.(*ssa.Const)
+				return ok && k.Value == nil
+			}
+			var other interface{}
+			switch {
+			case isNilConst(x.Y):
+				other = a
+			case isNilConst(x.X):
+				other = b
+			}
+			if ob, ok := other.(symBytes); ok {
+				var r symBool
+				switch {
+				case len(ob) == 1 && ob[0] == "RES":
+					r = "COPIED" // output != nil
+				case len(ob) == 0:
+					r = "false"
+				default:
+					r = "true" // a fresh or extended slice
+				}
+				if x.Op == token.EQL {
+					switch r {
+					case "true":
+						r = "false"
+					case "false":
+						r = "true"
+					default:
+						r = "!" + r
+					}
+				}
+				return r
+			}
+		}
 		op := x.Op.String()
 		return symBool(fmt.Sprintf("%v%s%v", a, op, b))
 	}
@@ -1144,7 +1185,7 @@ func ruleC10sym(c *Ctx) []*report.Result {
 	pos0 := c.P.Pos(res.fn.Pos())
 	r.Check(strings.HasPrefix(res.init["I"], "param:"), "escape.InternalEscapeBytes / scan starts at the start offset", pos0, "the scan index is not initialised from the start-offset parameter: "+res.init["I"])
 	r.Check(res.init["K"] == "0", "escape.InternalEscapeBytes / nothing copied at first", pos0, "the copied-up-to index starts at "+res.init["K"]+", want 0")
-	r.Check(res.init["RES"] == "B", "escape.InternalEscapeBytes / output starts as the input", pos0, "the output variable starts as "+res.init["RES"]+", want the scanned input (returned as is when nothing needs escaping)")
+	r.Check(res.init["RES"] == "B" || (res.nilFlag && res.init["RES"] == ""), "escape.InternalEscapeBytes / output starts as the input", pos0, "the output variable starts as "+res.init["RES"]+", want the scanned input (returned as is when nothing needs escaping)")
 	if v, ok := res.init["COPIED"]; ok {
 		r.Check(v == "false", "escape.InternalEscapeBytes / copied flag starts false", pos0, "the copied flag starts as "+v)
 	}
@@ -1341,7 +1382,11 @@ func ruleC10sym(c *Ctx) []*report.Result {
 					wants = append(wants, symBytes{"RES", "B[K:LEN]"})
 				} else {
 					// nothing copied: the output still is the input itself
-					wants = append(wants, symBytes{"RES"}, symBytes{"B"})
+					if res.nilFlag {
+						wants = append(wants, symBytes{"B"}) // the output variable is still nil: the input must be returned
+					} else {
+						wants = append(wants, symBytes{"RES"}, symBytes{"B"})
+					}
 				}
 			}
 			okRet := false
